@@ -14,33 +14,34 @@ def _h(name, tu, src, unwind=8, quick=None, thorough=None, kf=(), **kw):
     q = quick or _dims(3); t = thorough or _dims(4)
     for c in q + t:
         for m in kf: c[m] = 1
-    return dict(name=name, src='harnesses/%s.c' % src, func='h_' + name, kernels=[tu], unwind=unwind, quick=q, thorough=t, thorough_includes_quick=False, **kw)
+    return dict(name=name, src='harnesses/%s.c' % src, func='h_' + name, kernels=[tu], unwind=unwind, quick=q, thorough=t, thorough_includes_quick=False, **dict(dict(mem_gb=4), **kw))
+def _d4(e, dims=(1, 2, 3), **kw): return _dims(e, dims, **kw) + [_c(4, 2, _unwind=10)]   # dim 4: extents 1..2 (hybrid capacity 64)
 def _SP(e): return [_c(d, e, SECTIONS=n) for d in (1, 2, 3) for n in (1, 2, 3)]
-BD = 'hybrid source array (capacity 64) of dim DIM (enumerated 1..3), every extent 1..MAXE, all element data, the result index and the arguments symbolic'
+BD = 'hybrid source array (capacity 64) of dim DIM (enumerated 1..3, and 4 with extents 1..2 where a DIM=4 query is listed), every extent 1..MAXE, all element data, the result index and the arguments symbolic'
 B2 = 'two hybrid source arrays (capacity 64) of dim DIM (enumerated 1..3), extents 1..MAXE, both data buffers, the result index and the arguments symbolic'
 HARNESSES = [
- _h('tile', 'C04_replicate', 'C04_replicate', bounds=BD + '; reps: list of 1..4 entries each 1..3'),
- _h('repeat', 'C04_replicate', 'C04_replicate', bounds=BD + '; scalar repeats 1..3, axis in [-DIM,DIM)', kf=['KF_C04_REPEAT_NEGAXIS']),
- _h('repeat_flat', 'C04_replicate', 'C04_replicate', bounds=BD + '; scalar repeats 1..3, axis=None'),
- _h('roll', 'C04_replicate', 'C04_replicate', bounds=BD + '; shift in [-2n,2n] (n the rolled extent), axis in [-DIM,DIM)', kf=['KF_C04_ROLL_BIGSHIFT']),
- _h('roll_flat', 'C04_replicate', 'C04_replicate', bounds=BD + '; shift in [-2*numel,2*numel], axis=None', kf=['KF_C04_ROLL_BIGSHIFT']),
- _h('take', 'C04_join', 'C04_join', bounds=BD + '; index list of 1..4 entries in [-n,n) (repeats allowed), axis in [-DIM,DIM)', kf=['KF_C04_TAKE_NEGAXIS', 'KF_C04_TAKE_NEGINDEX']),
- _h('take_flat', 'C04_join', 'C04_join', bounds=BD + '; flat index list of 1..4 entries in [-numel,numel), axis=None', kf=['KF_C04_TAKE_NEGINDEX']),
- _h('concatenate', 'C04_join', 'C04_join', bounds=B2 + '; axis in [-DIM,DIM), b differs from a along axis only', kf=['KF_C04_CONCATENATE_NEGAXIS']),
- _h('concatenate_flat', 'C04_join', 'C04_join', bounds=B2 + '; axis=None, independent shapes'),
+ _h('tile', 'C04_replicate', 'C04_replicate', quick=_d4(3), thorough=_d4(4), bounds=BD + '; reps: list of 1..4 entries each 1..3'),
+ _h('repeat', 'C04_replicate', 'C04_replicate', quick=_d4(3), thorough=_d4(4), bounds=BD + '; scalar repeats 1..3, axis in [-DIM,DIM)', kf=['KF_C04_REPEAT_NEGAXIS']),
+ _h('repeat_flat', 'C04_replicate', 'C04_replicate', quick=_dims(3), thorough=_d4(4), bounds=BD + '; scalar repeats 1..3, axis=None'),
+ _h('roll', 'C04_replicate', 'C04_replicate', quick=_d4(3), thorough=_d4(4), bounds=BD + '; shift in [-2n,2n] (n the rolled extent), axis in [-DIM,DIM)', kf=['KF_C04_ROLL_BIGSHIFT']),
+ _h('roll_flat', 'C04_replicate', 'C04_replicate', quick=_dims(3), thorough=_d4(4), bounds=BD + '; shift in [-2*numel,2*numel], axis=None', kf=['KF_C04_ROLL_BIGSHIFT']),
+ _h('take', 'C04_join', 'C04_join', quick=_d4(3), thorough=_d4(4), bounds=BD + '; index list of 1..4 entries in [-n,n) (repeats allowed), axis in [-DIM,DIM)', kf=['KF_C04_TAKE_NEGAXIS', 'KF_C04_TAKE_NEGINDEX']),
+ _h('take_flat', 'C04_join', 'C04_join', quick=_dims(3), thorough=_d4(4), bounds=BD + '; flat index list of 1..4 entries in [-numel,numel), axis=None', kf=['KF_C04_TAKE_NEGINDEX']),
+ _h('concatenate', 'C04_join', 'C04_join', quick=_dims(3), thorough=_d4(4), bounds=B2 + '; axis in [-DIM,DIM), b differs from a along axis only', kf=['KF_C04_CONCATENATE_NEGAXIS']),
+ _h('concatenate_flat', 'C04_join', 'C04_join', quick=_dims(3), thorough=_d4(4), bounds=B2 + '; axis=None, independent shapes'),
  _h('stack', 'C04_join', 'C04_join', bounds=B2 + '; identical shapes, axis in [-(DIM+1),DIM]', kf=['KF_C04_STACK_NEGAXIS']),
  _h('stack_default', 'C04_join', 'C04_join', bounds=B2 + '; identical shapes, default axis'),
- _h('hstack', 'C04_join', 'C04_join', bounds=B2),
- _h('vstack', 'C04_join', 'C04_join', bounds=B2),
- _h('dstack', 'C04_join', 'C04_join', bounds=B2),
- _h('column_stack', 'C04_join', 'C04_join', bounds=B2),
- _h('pad', 'C04_window', 'C04_window', bounds=BD + '; widths before/after per axis 0..2, fill value symbolic'),
+ _h('hstack', 'C04_join', 'C04_join', quick=_dims(3), thorough=_d4(4), bounds=B2),
+ _h('vstack', 'C04_join', 'C04_join', quick=_dims(3), thorough=_d4(4), bounds=B2),
+ _h('dstack', 'C04_join', 'C04_join', quick=_dims(3), thorough=_d4(4), bounds=B2),
+ _h('column_stack', 'C04_join', 'C04_join', quick=_dims(3), thorough=_d4(4), bounds=B2),
+ _h('pad', 'C04_window', 'C04_window', unwind=10, quick=_d4(3), thorough=_d4(4), bounds=BD + '; widths before/after per axis 0..2, fill value symbolic'),
  _h('sliding_axis', 'C04_window', 'C04_window', bounds=BD + '; scalar window 1..n, axis in [-DIM,DIM)'),
  _h('sliding_all', 'C04_window', 'C04_window', bounds=BD + '; one window extent 1..n_k per axis, axis=None'),
- _h('tril', 'C04_window', 'C04_window', bounds=BD + '; k in [-MAXE,MAXE]'),
- _h('triu', 'C04_window', 'C04_window', bounds=BD + '; k in [-MAXE,MAXE]'),
- _h('diagonal', 'C04_window', 'C04_window', quick=_dims(3, (2, 3)), thorough=_dims(4, (2, 3)), bounds=BD + ' (DIM 2..3); offset in (-MAXE,MAXE) with a non-empty diagonal, axis1 != axis2 in [-DIM,DIM)', kf=['KF_C04_DIAGONAL_NEGOFFSET']),
- _h('diagonal_default', 'C04_window', 'C04_window', quick=_dims(3, (2, 3)), thorough=_dims(4, (2, 3)), bounds=BD + ' (DIM 2..3); default offset/axes'),
+ _h('tril', 'C04_window', 'C04_window', quick=_d4(3), thorough=_d4(4), bounds=BD + '; k in [-MAXE,MAXE]'),
+ _h('triu', 'C04_window', 'C04_window', quick=_dims(3), thorough=_d4(4), bounds=BD + '; k in [-MAXE,MAXE]'),
+ _h('diagonal', 'C04_window', 'C04_window', quick=_d4(3, (2, 3)), thorough=_d4(4, (2, 3)), bounds=BD + ' (DIM 2..3); offset in (-MAXE,MAXE) with a non-empty diagonal, axis1 != axis2 in [-DIM,DIM)', kf=['KF_C04_DIAGONAL_NEGOFFSET']),
+ _h('diagonal_default', 'C04_window', 'C04_window', quick=_dims(3, (2, 3)), thorough=_d4(4, (2, 3)), bounds=BD + ' (DIM 2..3); default offset/axes'),
 ] + [
  _h(n, 'C04_generate', 'C04_generate', quick=[{'MAXN': 4}], thorough=[{'MAXN': 8}], bounds='N, M in 1..MAXN, k in [-MAXN,MAXN], result index: all symbolic' + x)
  for n, x in (('eye', ''), ('eye_square', '; M=None'), ('identity', '; identity(N)'), ('tri', ''), ('tri_square', '; M=None'))
@@ -48,24 +49,24 @@ HARNESSES = [
  _h(n, 'C04_generate', 'C04_generate', quick=[{'MAXE': 3}], thorough=[{'MAXE': 4}], bounds='run-time shape (static_vector) of 1..4 extents in 1..MAXE, fill value, result index: all symbolic')
  for n in ('full', 'zeros', 'ones')
 ] + [
- _h(n, 'C04_generate', 'C04_generate', bounds=BD) for n in ('full_like', 'zeros_like', 'ones_like')
+ _h(n, 'C04_generate', 'C04_generate', quick=_dims(3), thorough=_d4(4), bounds=BD) for n in ('full_like', 'zeros_like', 'ones_like')
 ] + [
- _h(n, 'C04_generate', 'C04_generate', quick=[{'RNG': 8, 'MAXSTEP': 3}, {'RNG': 1 << 26, 'MAXSTEP': 3, 'KF_C04_ARANGE_FLOATLEN': 1}], thorough=[{'RNG': 64, 'MAXSTEP': 9}, {'RNG': 1 << 26, 'MAXSTEP': 9, 'KF_C04_ARANGE_FLOATLEN': 1}],
+ _h(n, 'C04_generate', 'C04_generate', quick=[{'RNG': 8, 'MAXSTEP': 3}, {'RNG': 1 << 26, 'MAXSTEP': 3, 'KF_C04_ARANGE_FLOATLEN': 1}], thorough=[{'RNG': 64, 'MAXSTEP': 9}, {'RNG': 1 << 26, 'MAXSTEP': 3, 'KF_C04_ARANGE_FLOATLEN': 1}],
     kf=['KF_C04_ARANGE_EMPTY'], bounds='int start, stop in [-RNG,RNG], step in [-MAXSTEP,MAXSTEP] minus 0 (arange2: step 1; arange1: start 0, step 1), element index: all symbolic; int dtype')
  for n in ('arange3', 'arange2', 'arange1')
 ] + [
- _h('expand', 'C04_select', 'C04_select', bounds=BD + '; axis in [-DIM,DIM), spacing 0..2, fill value symbolic'),
- _h('resize', 'C04_select', 'C04_select', bounds=BD + '; destination extents 1..5 per axis'),
- _h('compress', 'C04_select', 'C04_select', bounds=BD + '; condition list of 1..min(4,n) truth values (every pattern incl. all-false), axis in [-DIM,DIM)', kf=['KF_C04_COMPRESS_NEGAXIS']),
- _h('compress_flat', 'C04_select', 'C04_select', bounds=BD + '; condition list of 1..min(4,numel) truth values, axis=None'),
- _h('diagflat', 'C04_select', 'C04_select', bounds=BD + '; k in [-2,2]'),
+ _h('expand', 'C04_select', 'C04_select', quick=_d4(3), thorough=_d4(4), bounds=BD + '; axis in [-DIM,DIM), spacing 0..2, fill value symbolic'),
+ _h('resize', 'C04_select', 'C04_select', quick=_d4(3), thorough=_d4(4), bounds=BD + '; destination extents 1..5 per axis'),
+ _h('compress', 'C04_select', 'C04_select', quick=_d4(3), thorough=_d4(4), bounds=BD + '; condition list of 1..min(4,n) truth values (every pattern incl. all-false), axis in [-DIM,DIM)', kf=['KF_C04_COMPRESS_NEGAXIS']),
+ _h('compress_flat', 'C04_select', 'C04_select', quick=_dims(3), thorough=_d4(4), bounds=BD + '; condition list of 1..min(4,numel) truth values, axis=None'),
+ _h('diagflat', 'C04_select', 'C04_select', quick=_dims(3), thorough=_d4(4), bounds=BD + '; k in [-2,2]'),
  _h('split_args', 'C04_split', 'C04_split', quick=_SP(3), thorough=_SP(4), bounds='std::array shape of dim DIM (enumerated 1..3), extents 1..MAXE, axis in [-DIM,DIM), observed piece: symbolic; '
     'run-time section count enumerated 1..3 (dividing the extent); result is a std::vector of slice arguments'),
  _h('split_args_at', 'C04_split', 'C04_split', quick=_SP(3), thorough=_SP(4), bounds='std::array shape of dim DIM, extents 1..MAXE+1, strictly increasing cut positions inside (0,n), axis in [-DIM,DIM), observed piece: symbolic; '
     'number of cut positions enumerated 1..3'),
  _h('split', 'C04_split', 'C04_split', quick=_SP(3), thorough=_SP(4),
     bounds=BD + '; section count a per-query constant 1..3 (compile-time in nmtools) dividing the extent, axis in [-DIM,DIM), piece number symbolic'),
- _h('repeat_each', 'C04_multi', 'C04_multi', kf=['KF_C04_REPEAT_NEGAXIS'], bounds=BD + '; one repeat count 0..3 per element along axis (sum >= 1), axis in [-DIM,DIM)'),
+ _h('repeat_each', 'C04_multi', 'C04_multi', quick=_d4(3), thorough=_d4(4), kf=['KF_C04_REPEAT_NEGAXIS'], bounds=BD + '; one repeat count 0..3 per element along axis (sum >= 1), axis in [-DIM,DIM)'),
  _h('roll_axes', 'C04_multi', 'C04_multi', quick=_dims(3, (2, 3)), thorough=_dims(4, (2, 3)), kf=['KF_C04_ROLL_BIGSHIFT'], bounds=BD + ' (DIM 2..3); two distinct axes in [-DIM,DIM), one shift in [-2n,2n] per axis'),
  _h('roll_axes_scalar', 'C04_multi', 'C04_multi', quick=_dims(3, (2, 3)), thorough=_dims(4, (2, 3)), kf=['KF_C04_ROLL_BIGSHIFT'], bounds=BD + ' (DIM 2..3); two distinct axes, one scalar shift'),
  _h('sliding_axes', 'C04_multi', 'C04_multi', quick=_dims(3, (2, 3)), thorough=_dims(4, (2, 3)), bounds=BD + ' (DIM 2..3); two distinct axes in [-DIM,DIM), window 1..n per axis'),
@@ -78,10 +79,22 @@ HARNESSES = [
                   ('pad', '; 1..8 widths 0..2 (accepted iff 2*dim)', {'_unwind': 10}), ('take', '; index list of 1..4 non-negative entries, axis', {}),
                   ('concatenate', '; two shapes (agreeing and disagreeing off the axis), axis', {}), ('resize', '; destination of 1..4 extents 0..MAXE+2 (accepted iff same dim and positive)', {}))
  ] + [
- _h('where', 'C04_select', 'C04_select', bounds='three hybrid arrays of one shape, dim DIM (enumerated 1..3), extents 1..MAXE, all three data buffers and the result index symbolic'),
+ _h('where', 'C04_select', 'C04_select', quick=_dims(3), thorough=_d4(4), mem_gb=8, bounds='three hybrid arrays of one shape, dim DIM (enumerated 1..3), extents 1..MAXE, all three data buffers and the result index symbolic'),
 ]
-OUTSIDE = []
-ASSUMPTIONS = []
+OUTSIDE = [
+ 'linspace and arange on real (non-integer) grids: element values are IEEE expressions whose only solver oracle would be the same expression (weak); not claimed',
+ 'source dims > 4; dim 4 only with extents 1..2 (hybrid capacity 64) and only for the harnesses that list a DIM=4 query; extents > 4 at the view level (index-level harnesses: extents <= 8)',
+ 'empty results: diagonal offsets beyond the matrix, empty take/compress selections are observed by shape only (compress) or excluded (diagonal)',
+ 'roll / sliding_window / expand over more than two axes or with repeated axes; take with multi-dimensional index arrays; concatenate/stack of more than two operands (nmtools is binary)',
+ 'split with run-time sections/indices at the view level (returns a std::vector of views): covered at the slice-argument level (split_args) and, for a compile-time section count 1..3, at the view level',
+ 'where with broadcasting operands (C06); compile-time (constant) arguments and fixed-shape arrays (C09); invalid arguments (C15); evaluation into arrays (the views are read element-wise)',
+ 'regions of the PENDING_FINDINGS (negative axis in repeat/take/concatenate/stack/compress, negative take indices, |shift| beyond one wrap in roll, negative diagonal offset, empty / >2^24 arange): '
+ 'excluded by KF_C04_* macros, each with a natively replayed witness',
+]
+ASSUMPTIONS = [
+ 'element type unsigned (symbolic 32-bit cells); position identity follows from equality for all data',
+ 'section counts of split and the list lengths that size std::vector results are per-query constants (enumerated), see bounds',
+]
 PENDING_FINDINGS = [
  dict(id='C04-repeat-negative-axis', harness='repeat', exclude_define='KF_C04_REPEAT_NEGAXIS', witness_config={'DIM': 1, 'MAXE': 3},
       witness_inputs=['0x3', '0x0', '0x0', '0x10', '0x3', '0xffffffffffffffff', '0x8', '0x8', '0x0', '0x0'],
@@ -94,6 +107,15 @@ PENDING_FINDINGS = [
  dict(id='C04-roll-shift-beyond-extent', harness='roll_flat', exclude_define='KF_C04_ROLL_BIGSHIFT', witness_config={'DIM': 1, 'MAXE': 3},
       witness_inputs=['0x3', '0xffffbfff', '0xffffffff', '0xffffffff', '0x4', '0x0', '0x0', '0x0', '0x0'],
       what='same defect through view::roll(a, shift) (axis=None): shape (3,), shift=4, element 0'),
+ dict(id='C04-roll-shift-beyond-extent', harness='roll_axes', exclude_define='KF_C04_ROLL_BIGSHIFT', witness_config={'DIM': 2, 'MAXE': 3},
+      witness_inputs=['0x3', '0x3', '0x0', '0x0', '0x20000000', '0x0', '0x0', '0x0', '0x0', '0x0', '0x0', '0x0', '0x1', '0x6', '0xfffffffffffffffe', '0x0', '0x0', '0x0', '0x2'],
+      what='same defect with an axis list: shape (3,3), shift=(6,-2), axes=(0,1)'),
+ dict(id='C04-roll-shift-beyond-extent', harness='roll_axes_scalar', exclude_define='KF_C04_ROLL_BIGSHIFT', witness_config={'DIM': 2, 'MAXE': 3},
+      witness_inputs=['0x3', '0x2', '0x0', '0x0', '0x0', '0x0', '0x0', '0x0', '0x0', '0x0', '0x0', '0x1', '0xfffffffffffffffe', '0x4', '0x2', '0x0', '0x1', '0x0', '0x2'],
+      what='same defect with an axis list and a scalar shift: shape (3,2), shift=4, axes=(1,-2)'),
+ dict(id='C04-roll-shift-beyond-extent', harness='ix_roll', exclude_define='KF_C04_ROLL_BIGSHIFT', witness_config={'MAXE': 6},
+      witness_inputs=['0x2', '0x5', '0x4', '0x1', '0x2', '0x0', '0xfffffffffffffff7', '0x1', '0x1', '0x0', '0x4'],
+      what='same defect in index::roll itself: shape (5,4), axis 0, shift -9, index (1,1): source index 10-5=5 is outside the extent 5 (expected (1+9) mod 5 = 0)'),
  dict(id='C04-repeat-negative-axis', harness='repeat_each', exclude_define='KF_C04_REPEAT_NEGAXIS', witness_config={'DIM': 1, 'MAXE': 3},
       witness_inputs=['0x2', '0x1', '0x0', '0x0', '0xffffffffffffffff', '0x0', '0x3', '0x3', '0x2', '0x0', '0x0', '0x8', '0x8'],
       what='same defect with per-element repeats: a=[1,0], repeats=[0,3], axis=-1, element 0 (NumPy: a[1])'),
@@ -138,4 +160,12 @@ PENDING_FINDINGS = [
       what='view::arange on integer grids longer than 2^24: the length is ceil_(float(stop-start)/step) in single precision (arange.hpp:28), off by one once stop-start exceeds the 24-bit mantissa: '
            'arange(-67108864, 67108863, 3) has 44739243 elements in NumPy, nmtools reports a different length'),
 ]
-CLAIM = dict(text='', note='')
+CLAIM = dict(
+ text='For hybrid source arrays of dim 1..3 (dim 4 with extents 1..2 where listed) with every extent, every argument, all element data and the result index symbolic, the solver shows that '
+      'tile, repeat (scalar / per-element, axis / None), roll (one / two axes / None), take (axis / None), compress (axis / None), concatenate (axis / None), stack, hstack, vstack, dstack, '
+      'column_stack, split (slice arguments; pieces for 1..3 sections), sliding_window (scalar+axis / per-axis / two axes), diagonal, diagflat, tril, triu, where, eye, identity, tri, '
+      'full/zeros/ones(_like) and integer arange return NumPy\'s shape and NumPy\'s element, and that pad (constant fill, per-side widths), resize (floor(i*src/dst)) and expand '
+      '(spacing insertion with fill) return the shape and element of their documented definitions; the index-level maps (tile, repeat, roll, pad, take, concatenate, resize) are shown in addition on '
+      'bounded shapes of symbolic dimension 1..4. The proof excludes the regions of nine natively reproduced defects (PENDING_FINDINGS).',
+ note='Bounded: extents 1..3 (quick) / 1..4 (thorough) at the view level, 1..6 / 1..8 at the index level; reps/repeats 1..3, pad widths 0..2, shifts in [-2n,2n], spacing 0..2, resize targets 1..5; '
+      'binary joins only. Real-grid arange/linspace are outside. Trusted: clang-14 -O1 lowering, engine/ll2c.py, CBMC; validated per run by gate and witness assertions.')
